@@ -88,6 +88,17 @@ class TableFamily(Family):
             for i in range(budget(tier, 10, 300, mult)):
                 rng = Rng(seed * 3000017 + i * 11 + vlib.hash_tag(pid) % 1000)
                 yield ("table:sys:%d:%d" % (seed, i), F.gen_table_systematic(rng, stats))
+        if pid in ("C10", "C09"):
+            # the index block's own length prefix at its one-/two- and two-/three-byte boundaries: tables whose index block
+            # contents are 117..137 and 16372..16388 bytes long (one entry, the key length swept; plus a few short entries
+            # before it), so that "bytes occupied by the index block" is told apart from "length of its contents"
+            k0 = seed % 3
+            for j, kl in enumerate(list(range(105 + k0, 126, 1 if tier == "thorough" else 1)) + list(range(16360, 16377))):
+                rng = Rng(seed * 1000003 + 77 * kl)
+                last = bytes([0x6b]) + bytes(rng.below(256) for _ in range(kl - 1))
+                pre = [] if j % 3 else [bytes([0x61, 0x30 + d]) for d in range(j % 4)]
+                stats.bump("index_block_length_at_varint_boundary")
+                yield ("table:ixlen:%d:%d" % (seed, kl), F.gen_table_case(rng, stats, mode="sorted", comp=0, small=False, keys_override=pre + [last]))
         n = budget(tier, 250, 4000, mult)
         for i in range(n):
             rng = Rng(seed * 1000003 + i * 7 + vlib.hash_tag(pid) % 1000)
@@ -307,6 +318,9 @@ class CrcFamily(Family):
         yield ("crc:mt", ["crc.mt 4 8191 %d" % (3000 if tier == "quick" else 40000), "crc.mt 6 60001 %d" % (400 if tier == "quick" else 6000)]); stats.bump("crc_concurrent_calls")
         # the same buffer checksummed again after a change in the middle (the result depends on the bytes only)
         yield ("crc:hist", ["crc.hist %d %d" % (n, 12 if tier == "quick" else 200) for n in (64, 1023, 1024, 4096, 8192, 70000)]); stats.bump("crc_same_buffer_changed_in_the_middle")
+        # the first call of the process through the dispatch pointer (made from a constructor that runs before the library's own,
+        # so it goes through the initial trampoline) returns the CRC-32C too
+        yield ("crc:early", ["crc.early"]); stats.bump("crc_first_call_through_the_trampoline")
         # buffers beginning, ending and crossing a page boundary, and buffers ending right before an unmapped page
         yield ("crc:edge", ["crc.edge %d" % (40 if tier == "quick" else 300)]); stats.bump("crc_page_edges")
         # buffers of 4 GiB and more (size_t arithmetic of the loops): thorough tier, and whenever the case budget is enlarged
@@ -337,6 +351,10 @@ class CrcFamily(Family):
             if t[0] == "crc.hist":
                 if not r["real"].startswith("hist ok"):
                     fails.append(("C17", "the same %s-byte buffer checksummed again after one byte in it changed: %s (implementation:round; the value is not the CRC-32C of the buffer's current bytes)" % (t[1], r["real"]), i))
+                continue
+            if t[0] == "crc.early":
+                if r["real"].startswith("early wrong"):
+                    fails.append(("C17", "the first mtbl_crc32c call of the process (before the library's constructor has run: through the initial trampoline): %s (not the CRC-32C of the buffer; later calls on the same buffer are right)" % r["real"], i))
                 continue
             if t[0] == "crc.edge":
                 if not r["real"].startswith("edge ok") and not r["real"].startswith("edge unavailable"):
@@ -512,9 +530,9 @@ PROPS = {
         "module": "MtblProps.C08",
         "theorems": thm("C08", ["C08_gate", "C08_refused_noop", "C08_lastkey", "C08_history", "C08_accepted_sorted", "C08_no_abort", "C08_excl", "F11_accepted", "F11_witness"]),
         "generated": ["Constants"],
-        "families": ["table", "excl", "huge"],
+        "families": ["table", "excl", "usedw", "huge"],
         "thorough_variants": ["plain"],
-        "rule": "arbitrary (unsorted) add sequences: duplicates, smaller keys, proper prefixes/extensions, bytes >= 0x80, refusals around block cuts (block sizes down to 16 bytes via the run-time minimum); pre-existing target paths; non-trivial = >= 2 data blocks and >= 3 accepted entries",
+        "rule": "arbitrary (unsorted) add sequences: duplicates, smaller keys, proper prefixes/extensions, bytes >= 0x80, refusals around block cuts (block sizes down to 16 bytes via the run-time minimum); pre-existing target paths; mtbl_sorter_write into writers that already hold entries (the library's own caller of the gate); non-trivial = >= 2 data blocks and >= 3 accepted entries",
         "assumptions": ["open(2) with O_CREAT|O_EXCL fails on an existing path and leaves it untouched (POSIX contract)", "entries shorter than 4 GiB: longer ones are accepted and truncated (finding F11, listed in known_findings.json, proved as F11_accepted / F11_witness, reproduced on the real code by the thorough tier's wa.huge probe)"],
     },
 }
@@ -591,6 +609,89 @@ class HugeFamily(Family):
         return True
 
 FAMILIES["huge"] = HugeFamily
+
+
+class UsedWriterFamily(Family):
+    """C08 through the library's own caller of mtbl_writer_add: mtbl_sorter_write into a writer that has already accepted
+    entries.  The gate applies to every add, whoever makes it: the sorter's entries that do not sort after the writer's
+    last key are refused (mtbl_sorter_write stops and reports failure), and the finished file holds exactly the accepted
+    entries, strictly ascending."""
+    name = "usedw"
+    def cases(self, pid, seed, tier, mult, stats):
+        for i in range(budget(tier, 60, 900, mult)):
+            rng = Rng(seed * 7000003 + i * 19)
+            st = F.Stats()
+            keys = sorted(set(F.gen_keys(rng, rng.pick([2, 4, 7]), st, long_ok=False)))
+            if len(keys) < 2:
+                continue
+            head = rng.pick([0, 1, 1, 2])
+            hk = sorted(rng.pick(keys) for _ in range(head)); hk = sorted(set(hk))
+            sk = [rng.pick(keys) for _ in range(rng.pick([1, 2, 4, 9]))]
+            if rng.chance(1, 3) and hk:
+                sk = [k for k in sk if k > hk[-1]] or [keys[-1] + b"\x01"]      # everything sorts after the header: accepted
+                stats.bump("usedw_all_after_header")
+            else:
+                stats.bump("usedw_some_not_after_header" if hk else "usedw_fresh_writer")
+            lines = ["reset", "@i sys.info", "w.new 1 comp=0 bs=%d ri=2 minbs=16 pre=-" % rng.pick([16, 64, 300])]
+            for k in hk:
+                lines.append("w.add 1 %s %s" % (hx(k), hx(b"H")))
+            lines.append("s.new 2 mem=%d minmem=0 merge=%s eo=$i.eo pid=$i.pid tdir=plain%s" % (rng.pick([1, 64, 100000]), rng.pick(["union", "none"]) if len(set(sk)) == len(sk) else "union", ""))
+            for j, k in enumerate(sk):
+                lines.append("s.add 2 %s %s" % (hx(k), hx(bytes([0x30 + j]))))
+            lines.append("s.write 2 1")
+            lines.append("w.add 1 %s %s" % (hx(keys[-1] + b"\xff\xff"), hx(b"Z")))
+            lines += ["@f w.fin 1", "r.openw 3 1", "r.it 3 10 iter"] + ["r.next 10"] * (len(hk) + len(set(sk)) + 3)
+            yield ("usedw:%d:%d" % (seed, i), lines)
+    def oracle(self, res):
+        fails = []
+        last = None; acc = []; sadds = []; reading = None
+        for i, r in enumerate(res):
+            t = r["req"].split(" "); op = t[0][1:].split(" ")[-1] if t[0].startswith("@") else t[0]
+            if t[0].startswith("@"):
+                t = t[1:]; op = t[0]
+            real = r["real"]
+            if op == "reset":
+                last = None; acc = []; sadds = []; reading = None
+            elif op == "w.add":
+                k = unhx(t[2])
+                want = "ok" if (last is None or k > last) else "fail"
+                if real != want:
+                    fails.append(("C08", "mtbl_writer_add of %s after %s returned %s" % (t[2][:40], "-" if last is None else hx(last)[:40], real), i))
+                if real == "ok":
+                    acc.append(k); last = k
+            elif op == "s.add":
+                sadds.append(unhx(t[2]))
+            elif op == "s.write":
+                want = "ok"
+                for k in sorted(set(sadds)):
+                    if last is None or k > last:
+                        acc.append(k); last = k
+                    else:
+                        want = "fail"; break
+                if real != want:
+                    fails.append(("C08", "mtbl_sorter_write into a writer whose last key is %s, sorter keys %s: returned %s, expected %s (every add goes through the ordering gate)" % ("-" if not acc else "...", ",".join(hx(k)[:12] for k in sorted(set(sadds)))[:80], real, want), i))
+            elif op == "r.it":
+                reading = list(acc); prev = None
+            elif op == "r.next" and reading is not None:
+                if real.startswith("ent "):
+                    k = unhx(real.split(" ")[1])
+                    if prev is not None and not (k > prev):
+                        fails.append(("C08", "the finished file holds key %s after key %s: accepted keys must be strictly ascending" % (hx(k)[:40], hx(prev)[:40]), i))
+                    prev = k
+                    if not reading or reading[0] != k:
+                        fails.append(("C08", "the finished file holds key %s, the accepted adds were %s" % (hx(k)[:40], ",".join(hx(x)[:12] for x in acc)[:80]), i)); reading = None; continue
+                    reading.pop(0)
+                elif reading:
+                    fails.append(("C08", "the finished file lacks accepted key %s" % hx(reading[0])[:40], i)); reading = None
+        return fails
+    def keep_prefix(self, lines):
+        return 3
+    def tie_props(self, res, idx):
+        return {"C08"}
+    def nontrivial(self, pid, lines, res):
+        return any(r["req"].startswith("s.write") and r["real"] == "fail" for r in res) or any(r["req"].startswith("s.write") and r["real"] == "ok" for r in res)
+
+FAMILIES["usedw"] = UsedWriterFamily
 NOT_YET = {}
 
 
@@ -631,6 +732,8 @@ class MergerFamily(Family):
                     kind = tt[3]; seeked = False
                 if tt[0] == "m.seek" and tt[1] == iid:
                     seeked = True
+            if t[0] == "m.next" and not seeked and kind != "iter":
+                return {"C05", "C04"}
             return {"C05"} if (seeked or kind != "iter") else {"C04"}
         return {"C04", "C05"}
     def nontrivial(self, pid, lines, res):
@@ -744,6 +847,21 @@ class EncFamily(Family):
 FAMILIES["enc"] = EncFamily
 
 
+def file_verifies(fb):
+    """every frame up to the trailer: walkable, and the stored CRC-32C is the CRC of the block's bytes (what mtbl_verify checks)"""
+    if len(fb) < 512:
+        return False
+    end = len(fb) - 512; off = 0
+    while off < end:
+        ln, n = F.varint(fb, off)
+        if ln is None or off + n + 4 + ln > end:
+            return False
+        if int.from_bytes(fb[off + n:off + n + 4], "little") != crc32c_ref(fb[off + n + 4:off + n + 4 + ln]):
+            return False
+        off += n + 4 + ln
+    return off == end
+
+
 class WaFamily(Family):
     """C20: the writer under scripted write(2) outcomes (short writes, EINTR, zero, hard errors)"""
     name = "wa"
@@ -771,6 +889,13 @@ class WaFamily(Family):
                     for o in ("e", "p1", "p3", "z", "x"):
                         lines.append("wa.file %s script=%s %s" % (cfgs, ",".join(["f"] * pos + [o]), ents))
                         stats.bump("wa_single_" + o[0])
+            if i % 4 == 1:
+                # an unbounded number of interruptions in a row at one call (a signal storm): the write is retried until it
+                # goes through, however long that takes — runs of 63..1000 EINTRs, also right after a short write
+                for _ in range(4):
+                    pos = rng.below(ncalls); k = rng.pick([63, 64, 65, 130, 257, 1000])
+                    sc = ["f"] * pos + (["p%d" % rng.pick([1, 3])] if rng.chance(1, 2) else []) + ["e"] * k
+                    lines.append("wa.file %s script=%s %s" % (cfgs, ",".join(sc), ents)); stats.bump("wa_long_eintr_run")
             for _ in range(12):                    # random multi-fault scripts
                 sc = [rng.pick(["f", "f", "e", "e", "p1", "p2", "p5", "p500", "e", "f", "z" if rng.chance(1, 8) else "f", "x" if rng.chance(1, 8) else "e"]) for _ in range(rng.pick([3, 8, 20, 60]))]
                 lines.append("wa.file %s script=%s %s" % (cfgs, ",".join(sc), ents)); stats.bump("wa_random")
@@ -830,6 +955,8 @@ class WaFamily(Family):
                         except ValueError:
                             fb = wb = b""
                         fails.append(("C01", "table written under benign write(2) fragmentation (script %s) is not the table written when every write completes: what was added cannot be read back from it" % kvs["script"][:60], i))
+                        if not file_verifies(fb):
+                            fails.append(("C12", "file written under benign write(2) fragmentation (script %s) does not verify: a frame's stored CRC-32C is not the CRC of its bytes or the frames cannot be walked — mtbl_verify and a verify_checksums reader stop on a file the writer reported as written" % kvs["script"][:60], i))
                         if F.walk_layout(fb, 0) is None:
                             fails.append(("C09", "file written under benign write(2) fragmentation (script %s) is not well-formed: frames do not tile the file up to the index / trailer" % kvs["script"][:60], i))
                         if fb[-512:] != wb[-512:] or F.walk_layout(fb, 0) != F.walk_layout(wb, 0):
@@ -1055,7 +1182,7 @@ reg("C05", ["merger"], PROPS["C04"]["rule"] + "; get/prefix/range lookups on mer
     ["sources sorted; dupsort a total preorder", "seek targets at or after the start of the iterator's range (as the property requires; the hypothesis is necessary: seek_below_start_witness)", "the assembled history theorem is for unbounded iterators; bounded kinds are covered per operation (C05_seek, C05_inv_next) and by C05_lookup"])
 reg("C07", ["fileset"], "fileset histories: setfile rewrites (add/remove/reorder names, relative and absolute paths, a missing file, a file that is not a table) with strictly increasing mtimes via utimensat, create/delete table files, harness-owned CLOCK_MONOTONIC (clock_gettime shim) advanced in whole seconds, reload / reload_now on up to three handles (dup with other filename/reader filters and intervals 0,3,10,never), up to six open iterators of all kinds, seeks, closes, destroys in legal orders; under ASan; three-way agreement: real code, Lean machine, independent python machine; non-trivial = >= 2 setfile versions, a reload/reload_now and a dup",
     ["setfile edits change (ino, mtime); clock readings are positive and distinct; a setfile never lists a name twice; a name denotes the same table while it stays listed; handles outlive their iterators", "stat/mtime granularity, mmap-after-delete and real time are OS contracts (partial)"])
-reg("C12", ["corrupt"], "tables from the real writer (all six codecs, tiny blocks), then 14 (quick) / 60 (thorough) damaged copies each: 1, 2, 3 flipped bits and bursts <= 32 bits (LSB-first bit order) inside one block's stored bytes or checksum field, data blocks and the index block alike; mtbl_verify built from the tree run on every copy, a verifying reader drained in a child process (entries returned before it stops), get() on a key of the damaged block; non-trivial = the batch contains both aborting readers and FAILED verify runs",
+reg("C12", ["corrupt", "wa"], "tables from the real writer (all six codecs, tiny blocks), then 14 (quick) / 60 (thorough) damaged copies each: 1, 2, 3 flipped bits and bursts <= 32 bits (LSB-first bit order) inside one block's stored bytes or checksum field, data blocks and the index block alike; mtbl_verify built from the tree run on every copy, a verifying reader drained in a child process (entries returned before it stops), get() on a key of the damaged block; non-trivial = the batch contains both aborting readers and FAILED verify runs",
     ["asserts are enabled", "the two-/three-bit guarantee needs blocks shorter than 256 MiB (period of the CRC-32C generator)", "file-order bursts straddling the checksum field and the stored bytes are covered only when they are bursts in codeword order"])
 
 
@@ -1134,6 +1261,14 @@ class CzFamily(Family):
             stats.bump("cz_big_algo_%d" % algo); stats.bump("cz_big_kind_" + kind)
             lines.append("cz.big %d %s %s %d %d" % (algo, lvl, kind, n, seed + i))
         yield ("cz:big:%d" % seed, lines)
+        # sizes around the codecs' own input limits: above LZ4_MAX_INPUT_SIZE (0x7E000000) up to INT_MAX the lz4 library refuses
+        # the input — the wrapper must report failure (or produce something that decompresses to the input); above INT_MAX the
+        # wrapper's own guard applies.  Untouched zero pages: nothing is allocated or scanned when the size is refused.
+        lines = ["reset"]
+        for algo in (3, 4):
+            for n in (0x7E000001, 0x7FFFFFFF, 0x80000000):
+                lines.append("cz.huge %d %s %d" % (algo, rng.pick(["d", "1", "9"]), n)); stats.bump("cz_lz4_above_its_input_limit")
+        yield ("cz:huge:%d" % seed, lines)
     def oracle(self, res):
         fails = []
         last_in = None; last_c = None
@@ -1155,6 +1290,9 @@ class CzFamily(Family):
                     last_c = None
                 elif t[1] != "2" and not (real.startswith("ok ") or real == "fail"):
                     fails.append(("C15", "mtbl_decompress(algo=%s) of damaged input did not return: %s" % (t[1], real[:60]), i))
+            elif op == "cz.huge":
+                if real not in ("ok", "cfail", "nomem"):
+                    fails.append(("C15", "%s zero bytes, algo=%s level=%s: %s (compress reported success but its output does not decompress to the input, or the call did not return)" % (t[3], t[1], t[2], real), i))
             elif op == "cz.big":
                 if real not in ("ok", "cfail"):
                     fails.append(("C15", "round trip of %s bytes (%s) algo=%s level=%s: %s" % (t[4], t[3], t[1], t[2], real), i))
@@ -1171,7 +1309,7 @@ class CzFamily(Family):
     def tie_props(self, res, idx):
         return {"C15"}
     def nontrivial(self, pid, lines, res):
-        return any(r["req"].startswith(("cz.c", "cz.big")) and r["real"].startswith("ok") for r in res)
+        return any(r["req"].startswith(("cz.c", "cz.big")) and r["real"].startswith("ok") for r in res) or any(r["req"].startswith("cz.huge") for r in res)
     def keep_prefix(self, lines):
         return 1
 
@@ -1485,7 +1623,7 @@ reg("C14", ["tp", "tpmulti", "mt"], "static: the access sites of mtbl/threadpool
     "search for a concrete race: a ThreadSanitizer build of the library runs 1..4 caller threads, each with its own pooled writer and pooled sorter, sharing ONE pool of 1..16 threads, together with 0..8 threads iterating and querying one shared reader through their own iterators (1..10 rounds, tiny blocks and sorter chunks so that many jobs are in flight); non-trivial = a completed run with >= 2 callers or >= 2 reader threads",
     ["the C11 memory model, compiler transformations, the compression libraries and malloc are not modelled: the theorem is about the ownership/locking discipline of the machine and its agreement with the extracted access sites (partial)",
      "one client: C14_norace over MtblModel/Tp.lean; several clients sharing a pool: C14_norace_shared over the k-client machine MtblModel/TpK.lean, whose access labels are those of the one-client machine evaluated on each thread's view and relabelled with the client's own queue (so the tie to the access-site table carries over); the writer/sorter field partition between caller and result handler (C14_writer_partition, C14_writer_join_first, C14_sorter_partition, C14_sorter_join_first), reader immutability (C14_reader_immutable) and the single writer of the CRC function pointer (C14_crc_pointer) are table theorems over access tables re-extracted lexically from writer.c, sorter.c, reader.c, block.c, libmy/crc32c.c on every run",
-     "a critical section is one atomic step of the machine"],
+     "a critical section is one atomic step of the machine; every pthread_cond_signal is part of the critical section of the mutex that belongs to the same object (table signalLocks re-extracted from threadpool.c on every run, theorem C14_signals_under_mutex): a signal cannot race with the woken thread destroying the condition variable"],
     generated=["AccessSites", "OwnerSites"], variants=["sched", "tsan"], max_s={"quick": 100, "thorough": 1500})
 
 
@@ -1512,6 +1650,10 @@ class ResGen:
         return [i for i, o in self.objs.items() if o["k"] in ("reader", "merger", "fileset") and o.get("ok", True)]
     def gen(self, nops):
         rng = self.rng
+        if rng.chance(1, 4):
+            # every key of the history carries a long common prefix: key buffers (iterators' decoded keys, the writers' last key,
+            # the sorters' entries) grow past their initial sizes and are shrunk / reset / handed over on the way
+            self.emit("res.kpad %d" % rng.pick([300, 1100, 2000])); self.stats.bump("res_long_keys")
         nt = rng.pick([2, 3, 4])
         for t in range(nt):
             if rng.chance(1, 6):
